@@ -6,7 +6,7 @@
 # scheduler choices) must be identical per scenario.
 sims="${1:-30}"; shift
 props="${*:-C01 C02 C04 C05 C06 C07 C08 C13 C20}"
-cd /verif; d=$(mktemp -d /dev/shm/verif-det-XXXX); trap 'rm -rf $d' EXIT
+cd /verif; d=$(mktemp -d /dev/shm/verif-det-XXXX); mkdir -p $d/out; cp known_findings.json properties.jsonl $d/out/; trap 'rm -rf $d' EXIT
 rc=0
 for p in $props; do
   n=0
